@@ -6,6 +6,7 @@ import Proofs.C01Read64
 import Proofs.C01Write64
 import Proofs.C01Ahead
 import Proofs.C01ReadAt
+import Proofs.C01Overhang
 import Proofs.C01Buffer
 import Proofs.C01IOReader
 import Proofs.C01History
@@ -644,5 +645,101 @@ theorem writer_ioBits_roundtrip (X : Bits) (ops : List HOp) :
     runH depthFuel (newIOBits (.raw (bitsToBytesPadR X) 0 false)) ops = runBitsSpec (bitsToBytesPadR X) ops ∧
     bytesToBits (bitsToBytesPadR X) = X ++ List.replicate (padTo8 X.length) false :=
   ⟨plain_refines' _ ops, by rw [← packR_eq_bitsToBytesPadR]; exact bytesToBits_packR X⟩
+
+/-! ### ill-fitting sections (round 6, after the missed seeded change S6-C01-1)
+
+  `NewSectionReader(r, bitOff, nBits)` checks nothing, so the window may overhang the reader below it.  The old
+  theorems assumed `limit ≤ (den r).length` at every section (`WFd`); the theorems below drop that hypothesis. -/
+
+/-- the old well-formedness is a special case of the new one -/
+theorem wfd_implies_wfo (d : Nat) (r : Rd) (h : WFd d r) : WFo d r := wfd_wfo d r h
+
+/-- `readBitsAt_sound` WITHOUT the hypothesis that sections fit: for every nest (any depth) of sections with ANY
+    windows over a byte stack / zero reader / well-formed MultiReader, ReadBitsAt(p, n, off) succeeds and returns exactly
+    bits [off, off+k) of `den r` — where `den (.sect r base _ limit) = slice (den r) base (limit - base)` CLAMPS at
+    the end of `den r` — never a bit beyond that end, EOF exactly at / beyond it; and the reader left is of the same kind -/
+theorem readBitsAt_sound_overhang (d : Nat) (r : Rd) (h : WFo d r) (n off : Nat) :
+    ∃ r' res, step d r (.readAt n (off : Int)) = ok (r', res) ∧ SoundAtO (den r) off n res ∧ WFo d r' ∧ den r' = den r :=
+  readAt_soundO' d r h n off
+
+/-- `section_overhang_clamped`.  For EVERY reader r as above (any nesting, any overhang below) and EVERY window
+    (off, n) — inside r, reaching past its end by bits or bytes, starting at or beyond its end, empty — the section
+    NewSectionReader(r, off, n) is again such a reader, stands for `slice (den r) off n` (clamped at the end of r's
+    bits), and every ReadBitsAt(p, k, pos) on it returns exactly bits [pos, pos+j) of that clamped slice:
+    in terms of r, bits [off+pos, off+pos+j) of `den r` with off+pos+j ≤ |den r| — never a bit that is not part of
+    r's logical content, whatever lies below r. -/
+theorem section_overhang_clamped (d : Nat) (r : Rd) (h : WFo d r) (off n : Nat) (k pos : Nat) :
+    WFo (d + 1) (newSect r off n) ∧ den (newSect r off n) = slice (den r) off n ∧
+    ∃ r' res, step (d + 1) (newSect r off n) (.readAt k (pos : Int)) = ok (r', res) ∧
+      SoundAtO (slice (den r) off n) pos k res ∧
+      res.bits = slice (den r) (off + pos) res.bits.length ∧
+      (off + pos + res.bits.length ≤ (den r).length ∨ res.bits = []) ∧
+      WFo (d + 1) r' ∧ den r' = slice (den r) off n := by
+  have hw : WFo (d + 1) (newSect r off n) := by
+    simp only [newSect, WFo]; exact ⟨h, Nat.le_refl _, Nat.le_add_right _ _⟩
+  have hd : den (newSect r off n) = slice (den r) off n := by
+    simp only [newSect, den_sect]; congr 1; omega
+  refine ⟨hw, hd, ?_⟩
+  obtain ⟨r', res, h1, h2, h3, h4⟩ := readAt_soundO' (d + 1) _ hw k pos
+  rw [hd] at h2 h4
+  refine ⟨r', res, h1, h2, ?_, ?_, h3, h4⟩
+  · have hb := h2.bits
+    rcases h2.inb with hi | hi
+    · rw [slice_len_min] at hi
+      rw [slice_slice _ _ _ _ _ (by omega)] at hb; exact hb
+    · rw [hi]; simp [slice_zero_len]
+  · rcases h2.inb with hi | hi
+    · rw [slice_len_min] at hi
+      by_cases hz : res.bits.length = 0
+      · right; exact List.eq_nil_of_length_eq_zero hz
+      · left; omega
+    · right; exact hi
+
+/-- ReadBits on such a section (the section's own cursor `o - base`, moved by accepted seeks and earlier reads):
+    the same, and the cursor advances by exactly the bits returned -/
+theorem section_overhang_readBits (d : Nat) (r : Rd) (base o limit : Nat) (h : WFo (d + 1) (.sect r base o limit)) (n : Nat) :
+    ∃ r' res, step (d + 1) (.sect r base o limit) (.read n) = ok (.sect r' base (o + res.bits.length) limit, res) ∧
+      SoundAtO (slice (den r) base (limit - base)) (o - base) n res ∧
+      WFo (d + 1) (.sect r' base (o + res.bits.length) limit) ∧ den r' = den r :=
+  read_soundO' d r base o limit h n
+
+/-- bitio.NewBitReader(data, nBits) for EVERY nBits ≥ 0 or -1 — also nBits > 8·len(data), a section overhanging the
+    buffer — is such a reader and stands for the first min(nBits, 8·len) bits -/
+theorem newBitReader_overhang (data : List UInt8) (nBits : Option Nat) (d : Nat) :
+    WFo (d + 3) (newBitReader data nBits) ∧
+      den (newBitReader data nBits) = (bytesToBits data).take (nBits.getD (data.length * 8)) :=
+  ⟨by simp [newBitReader, newSect, newIOBits, WFo, ByteWF], den_newBitReader data nBits⟩
+
+/-- non-vacuity: sections of `exMulti` (24 bits) that overhang it by bits, start at its end, start beyond it, and a
+    section overhanging an overhanging section of a 12-bit NewBitReader over 3 bytes -/
+example : WFo 8 (newSect exMulti 10 100) ∧ WFo 8 (newSect exMulti 24 8) ∧ WFo 8 (newSect exMulti 30 0) ∧
+    WFo 8 (newSect (newSect (newBitReader [0x45, 0x67, 0x8f] (some 12)) 4 16) 2 100) := by
+  simp [WFo, WFd, exMulti, newSect, newBitReader, newIOBits, den, denList, denBy, cumEnds, slice, bytesToBits,
+    byteToBits, toBitsBE, ByteWF]
+
+/-- the code as it is: NewSectionReader(NewBitReader(3 bytes, 12 bits), 0, 16) stands for the 12 bits, a read of 20
+    bits returns 12 bits; a sub-section at 8 reaching 100 bits further returns the 4 bits 8..11 and then EOF -/
+example :
+    (match step 8 (newSect (newBitReader [0x45, 0x67, 0x8f] (some 12)) 0 16) (.readAt 20 0) with
+      | .ok (_, res) => (res.n, packR res.bits, res.err) | _ => (0, [], none)) = (12, [0x45, 0x60], none) ∧
+    (match step 8 (newSect (newSect (newBitReader [0x45, 0x67, 0x8f] (some 12)) 0 16) 8 100) (.readAt 20 0) with
+      | .ok (_, res) => (res.n, packR res.bits, res.err) | _ => (0, [], none)) = (4, [0x60], none) ∧
+    (match step 8 (newSect (newSect (newBitReader [0x45, 0x67, 0x8f] (some 12)) 0 16) 8 100) (.readAt 20 4) with
+      | .ok (_, res) => (res.n, packR res.bits, res.err) | _ => (0, [], none)) = (0, [], some .eof) := by
+  decide
+
+/-- the seeded variant S6-C01-1 (`newSectCollapsed`: a section of a section built on the parent's underlying reader,
+    the parent's bitLimit forgotten) violates `section_overhang_clamped`: over NewBitReader(0x45 0x67 0x8f, 12 bits)
+    the section (0, 16) returns 16 bits — 4 bits of the buffer that are not part of the 12-bit reader — and the
+    oversize sub-section of bytes 1..2 of a 4-byte buffer returns byte 3 -/
+theorem collapse_leaks_witness :
+    (den (newBitReader [0x45, 0x67, 0x8f] (some 12))).length = 12 ∧
+    (match step 8 (newSectCollapsed (newBitReader [0x45, 0x67, 0x8f] (some 12)) 0 16) (.readAt 20 0) with
+      | .ok (_, res) => (res.n, packR res.bits, res.err) | _ => (0, [], none)) = (16, [0x45, 0x67], none) ∧
+    (match step 8 (newSectCollapsed (newSect (newBitReader [1, 2, 3, 4] none) 8 16) 8 100) (.readAt 16 0) with
+      | .ok (_, res) => (res.n, packR res.bits, res.err) | _ => (0, [], none)) = (16, [3, 4], none) ∧
+    (match step 8 (newSect (newSect (newBitReader [1, 2, 3, 4] none) 8 16) 8 100) (.readAt 16 0) with
+      | .ok (_, res) => (res.n, packR res.bits, res.err) | _ => (0, [], none)) = (8, [3], none) := by
+  decide
 
 end Props.C01
